@@ -176,7 +176,8 @@ def run(cs, tier, run_index):
         return E.ExtendedNonlocalGame(p, v), (p, v)
 
     game, caller = build()
-    shadow = [prob.copy(), pred.copy()]
+    shadow = [np.array(game.prob_mat, copy=True), np.array(game.pred_mat, copy=True)]  # the object right after construction
+    caller_shadow = [prob.copy(), pred.copy()]
     # an interloper: a second game of the same shape and different contents whose methods are called in
     # between (anything kept between calls and keyed too coarsely would leak into the main object's values)
     interloper = None
@@ -224,7 +225,7 @@ def run(cs, tier, run_index):
         names.append(op["op"])
         res.log.add("op", k, key, out[1] if out[0] == "ok" else out[:2])
         res.checks_sim += 1
-        if not (_same(game.prob_mat, shadow[0]) and _same(game.pred_mat, shadow[1]) and _same(caller[0], shadow[0]) and _same(caller[1], shadow[1])):
+        if not (_same(game.prob_mat, shadow[0]) and _same(game.pred_mat, shadow[1]) and _same(caller[0], caller_shadow[0]) and _same(caller[1], caller_shadow[1])):
             res.violate("C09.hist.order", why="game object or caller arrays changed", after=op["op"], position=k, history=names, **meta)
             break
         if out[0] != "ok":
